@@ -253,8 +253,34 @@ def r176(ctx, fx):
                     "%s:%s" % (df.file, calls[0].get("ln")))
 
 
+def r177(ctx, fx):
+    rid = ctx.rule("R17.7", "the edits a handler answers are the edits that were computed: in the two formatting handlers nothing cuts, filters or shortens the list that "
+                   "do_formatting returned (`take_while`, `filter`, `take`, `skip`, `truncate`, `retain`, `drain`, `pop`, a slice of it) — a prefix of the list is in range, "
+                   "ordered and non-overlapping, and leaves the buffer half formatted")
+    CUT = ("take_while", "skip_while", "filter", "filter_map", "take", "skip", "truncate", "retain", "drain", "pop", "remove", "split_off", "swap_remove", "step_by", "dedup")
+    hs = [f for f in fx.all_fns("mos") if f.d.get("hir") and "::tests::" not in f.path and f.path.startswith(("mos::lsp::formatting::", "<mos::lsp::formatting::")) and
+          any(True for _ in lib.hir_calls(f.hir["body"], "formatting::do_formatting"))]
+    if len(hs) < 2:
+        ctx.fail_closed(rid, "fewer than 2 handlers that call do_formatting found (%d)" % len(hs))
+    for f in sorted(hs, key=lambda f: f.path):
+        cuts = []
+        for x in lib.hwalk(f.hir["body"]):
+            if x.get("k") == "mcall" and x.get("name") in CUT:
+                rty = str(lib.strip(x["recv"]).get("ty", "")) + str(lib.strip(x["recv"]).get("aty", ""))
+                if "TextEdit" in rty:
+                    cuts.append((x.get("name"), x.get("ln")))
+            if x.get("k") == "index" and "TextEdit" in str(lib.strip(x.get("a", {})).get("ty", "")):
+                cuts.append(("slice", x.get("ln")))
+        key = "%s|edits-unchanged" % f.path
+        ctx.inst(rid, key, sample={"handler": f.path, "cuts": cuts})
+        if cuts:
+            ctx.finding(rid, key, "%s shortens the list of edits (`%s`) before it answers: the client gets a part of what turns its buffer into the formatted text" % (
+                f.path.rstrip(">").rsplit("::", 1)[-1], cuts[0][0]), "%s:%s" % (f.file, cuts[0][1]))
+
+
 def run(ctx):
     fx = ctx.facts
+    r177(ctx, fx)
     r171(ctx, fx)
     r172_173(ctx, fx)
     r174(ctx, fx)
